@@ -51,6 +51,15 @@ def op_lit(op):
         return "(OSetLink %s %s %s)" % (cN(op[1]), op[2], "(@None N)" if op[3] is None else "(Some %s)" % cN(op[3]))
     if t == "set_attr":
         return "(OSetAttr %s %s %s)" % (cN(op[1]), op[2], opt_tok(op[3]))
+    if t == "find":
+        lim = "(@None Z)" if op[2] is None else "(Some %s)" % cZ(op[2])
+        f = op[3]
+        flt = "FAll" if f[0] == "all" else ("(FName %s)" % tok(f[1]) if f[0] == "name" else "(FType %s)" % tok(f[1]))
+        return "(OFind %s %s %s)" % (cN(op[1]), lim, flt)
+    if t == "parent":
+        return "(OParent %s %s)" % (cN(op[1]), op[2])
+    if t == "referring":
+        return "(OReferring %s %s)" % (cN(op[1]), op[2])
     if t == "force":
         return "(OForce %s %s %s)" % (cN(op[1]), cbool(op[2]), cZ(op[3]))
     if t == "probe":
